@@ -1,6 +1,7 @@
 package gram
 
 import (
+	"bytes"
 	"fmt"
 	"strings"
 
@@ -39,12 +40,19 @@ type Hooks struct {
 	// ShareLeaves: one terminal.Rune value per character for the whole grammar, the way a user defines a token once
 	// and mentions it in several rules
 	ShareLeaves bool
+	// ShareExprs: structurally equal composite sub-expressions are built ONCE and the one parser value is mentioned
+	// wherever the expression occurs (opt := Optional(x) used in two rules). A combinator that keeps state in its
+	// closure is then shared by all its users. Ignored when NameOf is set (names are per occurrence).
+	ShareExprs bool
 }
 
 type Built struct {
 	G      *Grammar
 	NTs    []parser.Func
 	leaves map[int]parsley.Parser
+	shared map[string]parsley.Parser
+	// SharedUses counts the occurrences that were served by a parser value built for an earlier occurrence
+	SharedUses int
 }
 
 func (b *Built) build(e *Expr, h *Hooks) parsley.Parser {
@@ -72,6 +80,12 @@ func (b *Built) build(e *Expr, h *Hooks) parsley.Parser {
 	case OpNT:
 		p = &b.NTs[e.NT]
 	default:
+		if h.ShareExprs && h.NameOf == nil {
+			if sp, ok := b.shared[e.String()]; ok {
+				b.SharedUses++
+				return sp
+			}
+		}
 		ks := make([]parsley.Parser, 0, len(e.Kids))
 		for _, k := range e.Kids {
 			ks = append(ks, b.build(k, h))
@@ -139,6 +153,12 @@ func (b *Built) build(e *Expr, h *Hooks) parsley.Parser {
 	if h.Around != nil {
 		p = h.Around(e, p)
 	}
+	if h.ShareExprs && h.NameOf == nil && e.Op != OpRune && e.Op != OpEmpty && e.Op != OpEnd && e.Op != OpNT {
+		if b.shared == nil {
+			b.shared = map[string]parsley.Parser{}
+		}
+		b.shared[e.String()] = p
+	}
 	return p
 }
 
@@ -181,11 +201,48 @@ func NewEnv(in string) *Env {
 	return &Env{File: f, FS: fs, Ctx: parsley.NewContext(fs, text.NewReader(f)), Base: int(f.Pos(0))}
 }
 
+// VirtualFile is a parsley.File of a given length without content. A file set assigns offsets from the lengths of
+// the files added before; a file of 2^31 bytes cannot be allocated per case, a parsley.File that says it is that long
+// can, and pushes every later file to a base offset beyond 2^31 (2^32, 2^40): global positions of that size are as
+// legal as any other for the parsed file, which is an ordinary text.File.
+type VirtualFile struct {
+	Name string
+	N    int
+	off  int
+}
+
+type virtualPosition string
+
+func (v virtualPosition) String() string { return string(v) }
+
+func (v *VirtualFile) Position(p int) parsley.Position {
+	if p < 0 || p > v.N {
+		return parsley.NilPosition
+	}
+	return virtualPosition(fmt.Sprintf("%s:+%d", v.Name, p))
+}
+func (v *VirtualFile) Pos(p int) parsley.Pos { return parsley.Pos(v.off + p) }
+func (v *VirtualFile) Len() int              { return v.N }
+func (v *VirtualFile) SetOffset(o int)       { v.off = o }
+
+// Filler returns a file of n bytes to be placed before the file of interest: a real text.File up to 2 MiB
+// (fill byte b, never CR, so the length survives normalisation), a VirtualFile beyond.
+func Filler(name string, n int, b byte) parsley.File {
+	if n > 2<<20 {
+		return &VirtualFile{Name: name, N: n}
+	}
+	return text.NewFile(name, bytes.Repeat([]byte{b}, n))
+}
+
+// BigOffsets are lengths of a preceding file that push the parsed file across the widths a packed key, a narrow
+// integer or a fixed table could assume for a global position (16, 20, 24, 31, 32, 40 bits), on either side.
+var BigOffsets = []int{65528, 65536, 70000, 1<<20 - 6, 1<<20 + 5, 1<<24 + 3, 1<<31 - 4, 1<<31 + 7, 1<<32 - 5, 1<<32 + 9, 1 << 40}
+
 // NewEnvAt places the file after `before` bytes of other files
 func NewEnvAt(in string, before []int) *Env {
 	fs := parsley.NewFileSet()
 	for i, n := range before {
-		fs.AddFile(text.NewFile(fmt.Sprintf("pre%d", i), []byte(strings.Repeat("z", n))))
+		fs.AddFile(Filler(fmt.Sprintf("pre%d", i), n, 'z'))
 	}
 	f := text.NewFile("f", []byte(in))
 	// both legal construction orders: reader before / after the file joins the set
